@@ -182,9 +182,24 @@ func vxKnownOpen(key string) bool {
 	}
 	return false
 }
-func vxReach(string)               {}
-func vxUnwind(int, bool)           {}
-func vxGuard(_, _, _ string)       {}
+func vxReach(string)         {}
+func vxUnwind(int, bool)     {}
+func vxGuard(_, _, _ string) {}
+
+// vxSpawn runs f concurrently (natively: on another goroutine, shortly after the caller blocks).
+func vxSpawn(f func()) {
+	go func() {
+		time.Sleep(20 * time.Millisecond)
+		f()
+	}()
+}
+
+// vxNativeRun is true in native replays, false in the symbolic run.
+func vxNativeRun() bool { return true }
+
+// vxDTLSServerName is only observable in the symbolic run.
+func vxDTLSServerName() string { return "" }
+
 func vxConcretize(x, _, _ int) int { return x }
 func vxGuardsOff()                 {}
 
